@@ -14,7 +14,8 @@ from .values import (
     Sym, Boxed, Obj, EnumMember, PyFunc, Bound, Native, ClassVal, BuiltinClass, BUILTIN_CLASSES,
     ExcVal, ModuleVal, SuperVal, Opaque, PyRaise, z3int, z3real, z3str, unbox,
 )
-from .rope import Rope, Lit, LE, Blob, ByteArr, SymList, SymElem, ArrSeg
+from .rope import (Rope, Lit, LE, Blob, ByteArr, SymList, SymElem, ArrSeg, BVSeg, bv_of_int, bv_backing,
+                   seg_byte, rope_bytes_bv)
 
 EXTERNS_USED: set[str] = set()     # names of extern contracts exercised in this process (reported in evidence)
 
@@ -183,6 +184,21 @@ def sym_arith(it, op, a, b):
     if isinstance(op, (ast.FloorDiv, ast.Mod)):
         if it.ctx.branch(y == 0):
             it.throw('ZeroDivisionError', 'integer division or modulo by zero')
+        # a divisor that is provably one constant is replaced by it (keeps the query linear)
+        if not z3.is_int_value(y):
+            mdl = it.ctx._model_of_pc()
+            if mdl is not None:
+                try:
+                    s_ = z3.Solver()
+                    s_.add(*it.ctx.pc)
+                    if s_.check() == z3.sat:
+                        yv = s_.model().eval(y, model_completion=True)
+                        if z3.is_int_value(yv) and it.ctx.valid(y == yv):
+                            y = yv
+                except z3.Z3Exception:
+                    pass
+        if not z3.is_int_value(y) and it.ctx.valid(z3.And(x >= 0, x < y)):
+            return sym_int(x) if isinstance(op, ast.Mod) else 0
         # Python floor semantics; z3 div/mod are Euclidean: identical for y > 0
         if it.ctx.valid(y > 0):
             return sym_int(x / y) if isinstance(op, ast.FloorDiv) else sym_int(x % y)
@@ -207,6 +223,10 @@ def bit_arith(it, op, a, b, x, y):
     Operands must be provably within [0, 2^64); the result of << must fit BV_WIDTH."""
     ctx = it.ctx
     lim = 1 << 64
+    if bv_backing(x) is not None or bv_backing(y) is not None:
+        r = bv_domain_op(it, op, a, b, x, y)
+        if r is not None:
+            return r
     if isinstance(op, (ast.LShift, ast.RShift)):
         if not ctx.valid(z3.And(x >= 0, x < lim, y >= 0, y <= 64)):
             raise Unsupported('shift operands out of the modelled range')
@@ -228,6 +248,46 @@ def bit_arith(it, op, a, b, x, y):
     bx, by = z3.Int2BV(x, BV_WIDTH), z3.Int2BV(y, BV_WIDTH)
     r = {ast.BitAnd: bx & by, ast.BitOr: bx | by, ast.BitXor: bx ^ by}[type(op)]
     return sym_int(z3.BV2Int(r))
+
+
+def bv_domain_op(it, op, a, b, x, y):
+    """Bit operation when an operand is bit-vector backed (BV2Int(e)); other operand: such a term or a
+    non-negative constant.  Result width grows for << so no bits are lost (Python ints do not wrap)."""
+    def width(t, c):
+        bk = bv_backing(t)
+        if bk is not None:
+            return bk.size()
+        if isinstance(c, int) and not isinstance(c, bool) and c >= 0:
+            return max(1, c.bit_length())
+        return None
+    wx, wy = width(x, a), width(y, b)
+    if wx is None or wy is None:
+        return None
+    if isinstance(op, ast.LShift):
+        if not isinstance(b, int) or b < 0 or b > 64:
+            return None
+        w = wx + b
+        return Sym(z3.BV2Int(z3.simplify(bv_of_int(x, w) << b)), 'int')
+    if isinstance(op, ast.RShift):
+        if not isinstance(b, int) or b < 0:
+            return None
+        return Sym(z3.BV2Int(z3.simplify(z3.LShR(bv_of_int(x, wx), min(b, wx)) if b < wx else z3.BitVecVal(0, wx))), 'int')
+    w = max(wx, wy)
+    bx, by = bv_of_int(x, w), bv_of_int(y, w)
+    if isinstance(op, ast.BitAnd):
+        r = bx & by
+        # narrow to the constant mask width (x & 0xFFFFFFFF fits 32 bits)
+        for c, cw in ((a, wx), (b, wy)):
+            if isinstance(c, int) and c >= 0 and c.bit_length() < w:
+                r = z3.Extract(max(1, c.bit_length()) - 1, 0, r)
+                break
+    elif isinstance(op, ast.BitOr):
+        r = bx | by
+    elif isinstance(op, ast.BitXor):
+        r = bx ^ by
+    else:
+        return None
+    return Sym(z3.BV2Int(z3.simplify(r)), 'int')
 
 
 def flag_binop(it, op, a, b):
@@ -557,6 +617,15 @@ def rope_index(it, r: Rope, idx):
     t = z3int(idx)
     if not it.ctx.branch(z3.And(t >= -n, t < n)):
         it.throw('IndexError', 'index out of range')
+    if len(r.segs) == 1 and isinstance(r.segs[0], BVSeg) and it.ctx.valid(t >= 0):
+        return Sym(z3.BV2Int(r.segs[0].byte(t)), 'int')
+    if any(isinstance(s, (BVSeg, LE)) for s in r.segs) and it.ctx.valid(t >= 0):
+        bs = rope_bytes_bv(it.ctx, r)
+        if bs is not None and len(bs) <= 16:
+            e = bs[-1]
+            for k in range(len(bs) - 2, -1, -1):
+                e = z3.If(t == k, bs[k], e)
+            return Sym(z3.BV2Int(e), 'int')
     # aligned literal byte?
     if it.ctx.valid(t >= 0):
         loc = r.locate(it.ctx, t)
@@ -628,6 +697,22 @@ def setitem(it, o, idx, v):
     if isinstance(o, dict):
         o[it.hashable(idx)] = v
         return
+    if isinstance(o, ByteArr):
+        r = o.rope
+        if len(r.segs) == 1 and isinstance(r.segs[0], BVSeg):
+            seg = r.segs[0]
+            t = z3int(idx)
+            if not it.ctx.branch(z3.And(t >= 0, t < seg.ln)):
+                if it.ctx.branch(t < 0):
+                    raise Unsupported('negative index store')
+                it.throw('IndexError', 'bytearray index out of range')
+            vt = z3int(v)
+            bk = bv_backing(vt)
+            if not (bk is not None and bk.size() <= 8) and not it.ctx.branch(z3.And(vt >= 0, vt <= 255)):
+                it.throw('ValueError', 'byte must be in range(0, 256)')
+            o.rope = Rope([BVSeg(z3.Store(seg.arr, z3.simplify(seg.off + t), bv_of_int(vt, 8)), seg.off, seg.ln)])
+            return
+        raise Unsupported('item assignment on structured bytearray')
     if isinstance(o, list):
         i = _concrete_index(it, idx)
         if i is None:
@@ -960,7 +1045,17 @@ def builtin_method(it, obj, name):
     if isinstance(o, ByteArr):
         if name == 'extend':
             def ext(it2, a, k):
-                o.rope = o.rope + to_rope(it2, a[0])
+                add = to_rope(it2, a[0])
+                if len(o.rope.segs) == 1 and isinstance(o.rope.segs[0], BVSeg):
+                    bs = rope_bytes_bv(it2.ctx, add)
+                    if bs is not None and len(bs) <= 16:
+                        seg = o.rope.segs[0]
+                        arr = seg.arr
+                        for j, bj in enumerate(bs):
+                            arr = z3.Store(arr, z3.simplify(seg.off + seg.ln + j), bj)
+                        o.rope = Rope([BVSeg(arr, seg.off, z3.simplify(seg.ln + len(bs)))])
+                        return
+                o.rope = o.rope + add
             return Native('bytearray.extend', ext)
         if name == 'append':
             def app(it2, a, k):
@@ -971,9 +1066,15 @@ def builtin_method(it, obj, name):
                     o.rope = o.rope + Rope.lit(bytes([v]))
                 else:
                     t = z3int(v)
-                    if not it2.ctx.branch(z3.And(t >= 0, t <= 255)):
+                    bk = bv_backing(t)
+                    if not (bk is not None and bk.size() <= 8) and not it2.ctx.branch(z3.And(t >= 0, t <= 255)):
                         it2.throw('ValueError', 'byte must be in range(0, 256)')
-                    o.rope = o.rope + Rope([LE(1, t)])
+                    if len(o.rope.segs) == 1 and isinstance(o.rope.segs[0], BVSeg):
+                        seg = o.rope.segs[0]
+                        o.rope = Rope([BVSeg(z3.Store(seg.arr, z3.simplify(seg.off + seg.ln), bv_of_int(t, 8)), seg.off,
+                                             z3.simplify(seg.ln + 1))])
+                    else:
+                        o.rope = o.rope + Rope([LE(1, t)])
             return Native('bytearray.append', app)
         if name == 'decode':
             return Native('bytearray.decode', lambda it2, a, k: bytes_decode(it2, o, *(a or ['utf-8'])))
@@ -1015,6 +1116,12 @@ def builtin_method(it, obj, name):
             order = unbox(a[1]) if len(a) > 1 else k.get('byteorder', 'big')
             if order != 'little' or not isinstance(ln, int):
                 raise Unsupported('to_bytes big-endian/symbolic length')
+            bk = bv_backing(o.t)
+            if bk is not None:
+                fits = True if bk.size() <= 8 * ln else (z3.Extract(bk.size() - 1, 8 * ln, bk) == 0)
+                if not it2.ctx.branch(fits):
+                    it2.throw('OverflowError', 'int too big to convert')
+                return Rope([LE(ln, z3.BV2Int(bv_of_int(o.t, 8 * ln)))])
             if not it2.ctx.branch(z3.And(o.t >= 0, o.t < (1 << (8 * ln)))):
                 it2.throw('OverflowError', 'int too big to convert')
             return Rope([LE(ln, o.t)])
@@ -1371,8 +1478,22 @@ class SymRange:
         raise Unsupported('loop over symbolic range needs a loop contract')
 
 
+class SymEnumerate:
+    def __init__(self, obj, start):
+        self.obj = obj
+        self.start = start
+
+    def pyvc_iter(self, it, loop):
+        raise Unsupported('enumerate over a symbolic sequence needs a loop contract')
+
+
 def _enumerate(it, a, k):
     start = unbox(a[1]) if len(a) > 1 else k.get('start', 0)
+    src = unbox(a[0])
+    if isinstance(src, (Rope, ByteArr)) and to_rope(it, src).concrete() is None:
+        return SymEnumerate(src, start)
+    if isinstance(src, SymList):
+        return SymEnumerate(src, start)
     return [(start + i, v) for i, v in enumerate(it.iterate(a[0]))]
 
 
@@ -1679,6 +1800,12 @@ def _int_from_bytes(it, a, k):
     # value of an opaque little-endian byte string of symbolic length: only LE-aligned ropes are resolved
     if len(r.segs) == 1 and isinstance(r.segs[0], LE) and not r.segs[0].signed:
         return sym_int(r.segs[0].t)
+    if any(isinstance(s, BVSeg) for s in r.segs):
+        bs = rope_bytes_bv(it.ctx, r)
+        if bs is not None and 1 <= len(bs) <= 8:
+            return Sym(z3.BV2Int(z3.Concat(*reversed(bs)) if len(bs) > 1 else bs[0]), 'int')
+        if bs is not None and len(bs) == 0:
+            return 0
     v = it.ctx.fresh_int('frombytes')
     it.ctx.assume(v >= 0)
     n = r.length()
